@@ -97,7 +97,7 @@ fn apply(e: &mut PageTableEntry, model: &mut u64, s: &Set) -> CaseResult {
     Ok(())
 }
 
-fn entry_prog(prog: &Vec<Set>, obs: &mut Obs) -> CaseResult {
+pub fn entry_prog(prog: &Vec<Set>, obs: &mut Obs) -> CaseResult {
     let mut e = PageTableEntry::new();
     let mut model = 0u64;
     check_entry(&e, 0, "new()")?;
@@ -141,7 +141,7 @@ pub struct TableStep {
     pub read_path: u8,
 }
 
-fn table_step() -> impl Strategy<Value = TableStep> {
+pub fn table_step() -> impl Strategy<Value = TableStep> {
     (prop_oneof![Just(0u16), Just(511u16), Just(1u16), Just(510u16), 0u16..512], 0u8..3, set(), 0u8..4)
         .prop_map(|(slot, path, set, read_path)| TableStep { slot, path, set, read_path })
 }
@@ -150,7 +150,7 @@ fn bytes_of(t: &PageTable) -> &[u8; 4096] {
     unsafe { &*(t as *const PageTable as *const [u8; 4096]) }
 }
 
-fn table_prog(c: &(Vec<TableStep>, bool), obs: &mut Obs) -> CaseResult {
+pub fn table_prog(c: &(Vec<TableStep>, bool), obs: &mut Obs) -> CaseResult {
     let (prog, zero_at_end) = c;
     ensure_eq!(core::mem::size_of::<PageTable>(), 4096usize, "size_of::<PageTable>()");
     ensure_eq!(core::mem::align_of::<PageTable>(), 4096usize, "align_of::<PageTable>()");
